@@ -53,7 +53,7 @@ Proof.
   rewrite (plan_call_independent q m c n 1), IH. reflexivity.
 Qed.
 
-Lemma prof_run_is_fresh table cluster sels ws :
-  prof_run table cluster sels ws =
-  map (fun w => SqlRender.render (ProfSel.prof_selector table (fst w) (snd w) sels) cluster) ws.
+Lemma prof_run_is_fresh re_full table cluster sels ws :
+  prof_run re_full table cluster sels ws =
+  map (fun w => SqlRender.render (ProfSel.prof_selector_abs re_full table (fst w) (snd w) sels) cluster) ws.
 Proof. reflexivity. Qed.
